@@ -2,7 +2,7 @@
 # usage: try_mutant.sh <patch.diff> <check-id> [tier] [seed]
 # Applies the patch to a scratch worktree of /repo (outside /repo and /verif), runs the check with
 # VERIF_REPO pointing at it, removes the worktree.  /repo itself is never modified.
-P=$1; C=$2; T=${3:-quick}; S=${4:-0}
+P=$(realpath $1); C=$2; T=${3:-quick}; S=${4:-0}
 W=/tmp/mrepo_$$
 git -C /repo worktree add -q $W HEAD || exit 3
 git -C $W apply "$P" || { echo "patch does not apply"; git -C /repo worktree remove --force $W; exit 3; }
